@@ -95,7 +95,7 @@ func tempTableWitness(pr *hc.Proc, o *hc.Out) {
 		v, err := pr.Query("SELECT k FROM " + name)
 		if err != nil {
 			problems = append(problems, "SELECT after UPDATE: "+err.Error())
-		} else if v.RecordLen() != 1 || hc.EncVal(hc.ViewCell(v, 0, 0)) != "I2" {
+		} else if v.RecordLen() != 1 || cellEnc(v, 0, 0) != "I2" {
 			problems = append(problems, "UPDATE not visible: SELECT k returns "+canonRows(viewRows(v))+" (expected I2)")
 		}
 		if _, err := pr.Exec("DISPOSE VIEW " + name + ";"); err != nil {
@@ -197,12 +197,12 @@ func lawWhere(pr *hc.Proc, o *hc.Out, q *qry, v *query.View, sql string) {
 	}
 	var want [][]string
 	for i := 0; i < w.RecordLen(); i++ {
-		if ternOf(hc.ViewCell(w, i, 0)) != ternary.TRUE {
+		if c0, ok := cellAt(w, i, 0); !ok || ternOf(c0) != ternary.TRUE {
 			continue
 		}
 		r := make([]string, w.FieldLen()-1)
 		for j := range r {
-			r[j] = hc.EncVal(hc.ViewCell(w, i, j+1))
+			r[j] = cellEnc(w, i, j+1)
 		}
 		want = append(want, r)
 	}
@@ -716,7 +716,7 @@ func primRows(v *query.View) [][]value.Primary {
 	for i := range out {
 		r := make([]value.Primary, v.FieldLen())
 		for j := range r {
-			r[j] = hc.ViewCell(v, i, j)
+			r[j], _ = cellAt(v, i, j)
 		}
 		out[i] = r
 	}
